@@ -210,3 +210,65 @@ MC_HARNESS(perf_incs) {
   mc::join_all();
   MC_CHECK(x.load() == n * t, "x=%d", x.load());
 }
+
+// ---- weak-memory layer (opt.wm=1)
+// store buffering: both threads may read 0 unless the accesses are seq_cst
+static void sb(std::memory_order st, std::memory_order ld, bool fence) {
+  std::atomic<int> x{0}, y{0};
+  mc::Shared<int> r1{-1}, r2{-1};
+  mc::spawn([&] {
+    x.store(1, st);
+    if (fence) std::atomic_thread_fence(std::memory_order_seq_cst);
+    r1.set(y.load(ld));
+  });
+  mc::spawn([&] {
+    y.store(1, st);
+    if (fence) std::atomic_thread_fence(std::memory_order_seq_cst);
+    r2.set(x.load(ld));
+  });
+  mc::join_all();
+  mc::observe("r", r1.get() * 2 + r2.get());
+  MC_CHECK(!(r1.get() == 0 && r2.get() == 0), "store buffering: both loads read 0");
+}
+MC_HARNESS(sb_relaxed) { sb(std::memory_order_relaxed, std::memory_order_relaxed, false); }
+MC_HARNESS(sb_relacq) { sb(std::memory_order_release, std::memory_order_acquire, false); }
+MC_HARNESS(sb_seqcst) { sb(std::memory_order_seq_cst, std::memory_order_seq_cst, false); }
+MC_HARNESS(sb_fenced) { sb(std::memory_order_relaxed, std::memory_order_relaxed, true); }
+// message passing through two atomics: with release/acquire the reader of flag==1 must see data==42
+static void mp_atomic(std::memory_order st, std::memory_order ld) {
+  std::atomic<int> data{0}, flag{0};
+  mc::spawn([&] {
+    data.store(42, std::memory_order_relaxed);
+    flag.store(1, st);
+  });
+  mc::spawn([&] {
+    if (flag.load(ld) == 1) {
+      int d = data.load(std::memory_order_relaxed);
+      mc::cover("saw_flag");
+      MC_CHECK(d == 42, "message passing: flag seen but data is %d", d);
+    }
+  });
+  mc::join_all();
+}
+MC_HARNESS(mpa_relaxed) { mp_atomic(std::memory_order_relaxed, std::memory_order_relaxed); }
+MC_HARNESS(mpa_relacq) { mp_atomic(std::memory_order_release, std::memory_order_acquire); }
+// Peterson with release/acquire only is broken under weak memory
+MC_HARNESS(peterson_weak) {
+  std::atomic<int> flag[2];
+  flag[0].store(0);
+  flag[1].store(0);
+  std::atomic<int> turn{0};
+  mc::Shared<int> in_cs{0};
+  for (int i = 0; i < 2; i++)
+    mc::spawn([&, i] {
+      flag[i].store(1, std::memory_order_release);
+      turn.store(1 - i, std::memory_order_release);
+      while (flag[1 - i].load(std::memory_order_acquire) == 1 && turn.load(std::memory_order_acquire) == 1 - i) {
+      }
+      MC_CHECK(in_cs.add(1) == 0, "mutual exclusion violated");
+      mc::point();
+      in_cs.add(-1);
+      flag[i].store(0, std::memory_order_release);
+    });
+  mc::join_all();
+}
